@@ -20,6 +20,32 @@ def adapter_chain(prog, bi, operand, sl):
     return {c.split("::")[-1].split("<")[0] for c in s.calls}, s
 
 
+class Unit:
+    """the code that handles ONE submitted message: a closure driven by an iterator adapter (whole body = one message), or
+    the body of a `for` loop over the submitted vector (one iteration = one message)"""
+
+    def __init__(self, prog, bi, header=None):
+        self.prog, self.bi, self.header = prog, bi, header
+        self.blocks = set(bi.cfg.reach) if header is None else set(bi.cfg.loops()[header])
+        self.name = prog.short(bi.body.id) + ("" if header is None else ":loop@%s" % bi.loc(header).split(":")[-1])
+
+    def calls(self, pred):
+        return [(bb, t) for bb, t in self.bi.calls(pred) if bb in self.blocks]
+
+    def on_every_pass(self, bb):
+        """every complete pass (closure: entry -> return; loop: header -> back to the header) goes through bb"""
+        cfg = self.bi.cfg
+        if self.header is None:
+            return cfg.post_dominates(bb, 0) and not cfg.in_loop(bb)
+        if [h for h in cfg.in_loop(bb) if h != self.header and h in self.blocks and cfg.loops()[h] < self.blocks]:
+            return False     # inside a nested loop: zero or many times per message
+        outside = {x for x in cfg.reach if x not in self.blocks}
+        for s0 in cfg.succ[self.header]:
+            if s0 in self.blocks and cfg.path(s0, {self.header}, avoid={bb} | outside) is not None:
+                return False
+        return True
+
+
 @rule("C08", "R08.1", "one id and one shared message per submitted message, assigned in request order", floor=3)
 def r08_1(prog, out):
     R = roles(prog)
@@ -32,25 +58,34 @@ def r08_1(prog, out):
         out.violation("%s:counter" % prog.short(pid), prog.loc(pid), "the topic actor no longer owns the per-topic message counter: ids are not issued in the order in which "
                       "the actor accepts the messages")
         return
-    # the per-message closure: the child body that writes the counter
+    # the per-message unit: the child closure that writes the counter, or the loop of the handler in which it is written
+    unit = None
     clos = [c for c in prog.facts.children(pid) if any(e.kind == "write" and not e.chain for e in prog.effects(c)
                                                        if c09.cells_of_effect(prog, prog.info(c), e) & {ctr})]
-    if not clos:
+    if clos:
+        unit = Unit(prog, prog.info(clos[0]))
+    else:
+        wbbs = [e.bb for e in prog.effects(pid) if e.kind == "write" and not e.chain and c09.cells_of_effect(prog, pi, e) & {ctr}]
+        heads = [h for bb in wbbs for h in pi.cfg.in_loop(bb)]
+        if heads:
+            # the innermost loop around the counter write
+            h = sorted(heads, key=lambda x: len(pi.cfg.loops()[x]))[0]
+            unit = Unit(prog, pi, h)
+    if unit is None:
         out.violation("%s:counter" % prog.short(pid), prog.loc(pid), "the publish handler does not advance the per-topic counter while it accepts the messages: ids are "
                       "not issued in acceptance order")
         return
-    cid = clos[0]
-    ci = prog.info(cid)
-    name = prog.short(cid)
-    # exactly one push of an id per invocation
-    pushes = [bb for bb, t in ci.calls(lambda c: c.path == "std::vec::Vec::<T, A>::push") if (ci.body.operand_ty(t.args[1]) or "") == A.ty("MessageId")]
+    ci = unit.bi
+    name = unit.name
+    # exactly one push of an id per message
+    pushes = [bb for bb, t in unit.calls(lambda c: c.path == "std::vec::Vec::<T, A>::push") if (ci.body.operand_ty(t.args[1]) or "") == A.ty("MessageId")]
     key = "%s:one-id-per-message" % name
-    if len(pushes) == 1 and ci.cfg.post_dominates(pushes[0], 0) and not ci.cfg.in_loop(pushes[0]):
+    if len(pushes) == 1 and unit.on_every_pass(pushes[0]):
         out.holds(key, ci.loc(pushes[0]), "exactly one id is pushed to the response per message, on every path")
     else:
-        out.violation(key, prog.loc(cid), "the per-message step pushes %d id(s) (or not on every path): Publish no longer returns exactly one id per message" % len(pushes))
+        out.violation(key, prog.loc(ci.body.id), "the per-message step pushes %d id(s) (or not on every path): Publish no longer returns exactly one id per message" % len(pushes))
     # the pushed id is the one stored in the message
-    setter = [(bb, t) for bb, t in ci.calls(lambda c: c.target == A.ty("TopicMessage") + "::publish")]
+    setter = unit.calls(lambda c: c.target == A.ty("TopicMessage") + "::publish")
     key = "%s:returned-id=stored-id" % name
     if pushes and setter:
         o1 = ci.trace(ci.call_at(pushes[0]).args[1])
@@ -59,41 +94,66 @@ def r08_1(prog, out):
             out.holds(key, ci.loc(pushes[0]), "the id returned to the publisher is the id stored in the message")
         else:
             out.violation(key, ci.loc(pushes[0]), "the id returned to the publisher (%r) is not the id stored in the message (%r)" % (o1, o2))
+    elif pushes:
+        # the id may be stored by a direct field write instead of a setter
+        idw = [e for e in prog.effects(ci.body.id) if e.kind == "write" and e.cells and e.cells[-1] == A.cell("TopicMessage", "id") and e.bb in unit.blocks]
+        if idw:
+            out.holds(key, ci.loc(idw[0].bb), "the id is stored in the message by the per-message step")
+        else:
+            out.violation(key, ci.loc(pushes[0]), "the per-message step returns an id but never stores it in the message: deliveries carry another id than Publish returned")
     else:
-        out.undecided(key, prog.loc(cid), "id push / publish setter not found")
-    # one Arc per invocation = the return value
-    arcs = [bb for bb, t in ci.calls(lambda c: c.path == "std::sync::Arc::<T>::new")]
+        out.undecided(key, prog.loc(ci.body.id), "id push not found")
+    # one Arc per message, handed on (returned by the closure / pushed to the batch by the loop)
+    arcs = [bb for bb, t in unit.calls(lambda c: c.path == "std::sync::Arc::<T>::new")]
     key = "%s:one-message-per-message" % name
-    ro = ci.trace(0)
-    if len(arcs) == 1 and ro.kind == "call" and ro.data == arcs[0]:
-        out.holds(key, ci.loc(arcs[0]), "the step returns the one Arc it creates")
+    handed = False
+    if len(arcs) == 1:
+        if unit.header is None:
+            ro = ci.trace(0)
+            handed = ro.kind == "call" and ro.data == arcs[0]
+        else:
+            for bb, t in unit.calls(lambda c: c.path == "std::vec::Vec::<T, A>::push"):
+                o = ci.trace(t.args[1])
+                if o.kind == "call" and o.data == arcs[0] and unit.on_every_pass(bb):
+                    handed = True
+    if handed and unit.on_every_pass(arcs[0]) if unit.header is not None else handed:
+        out.holds(key, ci.loc(arcs[0]), "each message becomes exactly one shared message that is handed on")
     else:
-        out.violation(key, prog.loc(cid), "the per-message step does not return exactly the one shared message it creates")
+        out.violation(key, prog.loc(ci.body.id), "the per-message step does not hand on exactly the one shared message it creates")
     # driven in request order
     key = "%s:request-order" % prog.short(pid)
-    agg_bb = None
-    for blk in pi.body.blocks:
-        for i, s in enumerate(blk.stmts):
-            if s.k == "assign" and s.rv.k == "agg" and s.rv.j.get("ak") == "closure" and prog.qual(pi.body, s.rv.j["def"]) == cid:
-                agg_bb = (blk.idx, i, s)
-    maps = [(bb, t) for bb, t in pi.calls(lambda c: c.path == "std::iter::Iterator::map")]
-    drv = None
-    for bb, t in maps:
-        o = pi.trace(t.args[1])
-        if agg_bb and o.kind == "agg" and o.data == (agg_bb[0], agg_bb[1]):
-            drv = (bb, t)
-    if drv is None:
-        out.undecided(key, prog.loc(pid), "the per-message closure is not driven by Iterator::map")
+    src = None
+    if unit.header is None:
+        cid = ci.body.id
+        agg_bb = None
+        for blk in pi.body.blocks:
+            for i, st in enumerate(blk.stmts):
+                if st.k == "assign" and st.rv.k == "agg" and st.rv.j.get("ak") == "closure" and prog.qual(pi.body, st.rv.j["def"]) == cid:
+                    agg_bb = (blk.idx, i, st)
+        for bb, t in pi.calls(lambda c: c.path == "std::iter::Iterator::map"):
+            o = pi.trace(t.args[1])
+            if agg_bb and o.kind == "agg" and o.data == (agg_bb[0], agg_bb[1]):
+                src = (bb, t.args[0], "map(per-message step)")
     else:
-        names, s = adapter_chain(prog, pi, drv[1].args[0], sl)
+        for bb, t in unit.calls(lambda c: c.path == "std::iter::Iterator::next"):
+            if t.args and (bb == unit.header or pi.cfg.dominates(bb, [x for x in pi.cfg.succ[unit.header] if x in unit.blocks][0]) or True):
+                src = (bb, t.args[0], "for loop")
+                break
+    if src is None:
+        out.undecided(key, prog.loc(pid), "the per-message step is not driven by Iterator::map or a for loop")
+    else:
+        names, s2 = adapter_chain(prog, pi, src[1], sl)
         bad = names & REORDERING
         unknown = names - ORDER_PRESERVING - REORDERING
+        from_request = any(r[0] == "param" for r in s2.roots) or any(r[0] == "upvar" for r in s2.roots)
         if bad:
-            out.violation(key, pi.loc(drv[0]), "messages are processed through %s before ids are assigned: ids / posted order no longer follow request order" % sorted(bad))
+            out.violation(key, pi.loc(src[0]), "messages are processed through %s before ids are assigned: ids / posted order no longer follow request order" % sorted(bad))
         elif unknown:
-            out.undecided(key, pi.loc(drv[0]), "iterator adapters without an order model: %s" % sorted(unknown))
+            out.undecided(key, pi.loc(src[0]), "iterator adapters without an order model: %s" % sorted(unknown))
+        elif not from_request:
+            out.undecided(key, pi.loc(src[0]), "the iterated collection is not the submitted vector")
         else:
-            out.holds(key, pi.loc(drv[0]), "request vector -> into_iter -> map(per-message step): request order")
+            out.holds(key, pi.loc(src[0]), "request vector -> into_iter -> %s: request order" % src[2])
     # what is posted is that vector, unmodified
     key = "%s:posted-order" % prog.short(pid)
     reorder = [e for e in prog.effects(pid) if e.kind == "reorder" and not e.spawned]
